@@ -188,7 +188,7 @@ ADDENDA = {
                      "removed targets that come back, and a held-back removal aimed at the registration window of a starting stream (hook stream.register)."),
     "C05": dict(text=" Key values may contain the path separator, and ONCE/static requests carry pairs of list entries whose keys are related as strings only (x, x/y). An 'idle' profile adds POLL/STREAM subscribers that stay silent for longer than the send timeout between triggers."),
     "C06": dict(text=" The 'remove' profile (streams that lose the race with the removal of their target, targets that come back) checks that nothing registered for a refused or ended stream is offered anything later."),
-    "C07": dict(text=" Whole-target removals happen under an ACL as well (the delete of a target a subscriber may not see is not for it either). Also: subscriptions to a target the cache does not know (refused as unauthenticated first, if the caller is), and an 'idle' profile with an ACL in which the last thing a sender handled "
+    "C07": dict(text=" In scenarios with an ACL the driver also stores, through (*cache.Target).GnmiUpdate, a notification whose prefix names no target (nobody is authorised for the target \"\": no response may carry it). Whole-target removals happen under an ACL as well (the delete of a target a subscriber may not see is not for it either). Also: subscriptions to a target the cache does not know (refused as unauthenticated first, if the caller is), and an 'idle' profile with an ACL in which the last thing a sender handled "
                      "before a silence longer than the send timeout may be a denied target's notification (the stream must survive)."),
     "C08": dict(text=" SendTimer.tla specifies the send-timeout discipline of a sender (a timer runs only while a Send is in progress; a Send that never returns ends the RPC, the sync response included) "
                      "with three mutants that must be refuted (timer left running after the sync, armed before the ACL filter, sync sent without the timer); an 'idle' profile (silences longer than the send "
